@@ -158,7 +158,7 @@ func cmdCoreCtx(args []string) error {
 			m.Value().Cmp(msg.Value) == 0 && m.Gas() == msg.GasLimit && m.GasPrice().Cmp(msg.GasPrice) == 0 && m.GasFeeCap().Cmp(msg.GasFeeCap) == 0 &&
 			m.GasTipCap().Cmp(msg.GasTipCap) == 0 && string(m.Data()) == string(msg.Data)
 		if !same {
-			cs.Oracle = append(cs.Oracle, "C01: TxContext.Msg() does not report the fields of the transaction's message")
+			cs.Oracle = append(cs.Oracle, "C05: TxContext.Msg() does not report the fields of the transaction's message")
 		}
 		cases = append(cases, cs)
 		stats["tx-context"]++
